@@ -157,38 +157,47 @@ def streams(ctx):
                     continue
                 else:
                     s, e = p["start"], p["end"]
-                    got = b[s:e].decode("utf-8", "replace")
-                    inside = [t0 for t0 in occ if t0 <= s and e <= t0 + len(tb)]
-                    if not inside:
-                        why = f"range {s}..{e} = {got!r} is not inside the value token {token!r} (at {occ})"
-                    elif spec and spec in token and spec.replace(" ", "") not in got.replace(" ", ""):
-                        why = f"range {got!r} does not cover the spec {spec!r}"
-                    elif token == spec and got != spec:
-                        why = f"range {got!r} is not exactly the spec {spec!r}"
-                    # F-C05-1 exactly: the range starts AT the '@' and runs to just after the closing quote
-                    if why and eco == "gha" and L["quote"] in ('"', "'") and got.startswith("@") and got.endswith(L["quote"]) and got[1:-1] == spec:
-                        kid = "F-C05-1"
-                    if not why:
-                        # the diagnostic range in the client's units
-                        ls = b.rfind(b"\n", 0, s) + 1
-                        want = (utf16_len(b[ls:s].decode("utf-8")), utf16_len(b[ls:e].decode("utf-8")))
-                        # the diagnostic of THIS package: generate_diagnostics keeps the package order; usable when every package got one
-                        wl = wire[i].split(" ", 1)
-                        wds = [x for x in (wl[1].split(";") if len(wl) > 1 and wl[1] else [])]
-                        allp = pkgs_of(o)
-                        if wire[i].startswith("n=") and len(wds) == len(allp) == int(wl[0][2:]):
-                            WIRE_CHECKED[0] += 1
-                            k = allp.index(p)
-                            l1, rest = wds[k].split(":", 1)
-                            c1, rest2 = rest.split("-", 1)
-                            l2, c2 = rest2.split(":")
-                            have = (int(c1), int(c2))
-                            if int(l1) != p["line"] or l1 != l2:
-                                why = f"diagnostic on lines {l1}..{l2}, the spec is on line {p['line']}"
-                            elif want != have:
-                                why = f"diagnostic range characters {have} but the spec is at UTF-16 characters {want} of its line"
+                    # the location the server REPORTS is the diagnostic range on the wire (line, UTF-16 characters): use it whenever
+                    # every package of the manifest got a diagnostic (generate_diagnostics keeps the package order); the parser's
+                    # own byte range is judged only when no diagnostic is available
+                    wl = wire[i].split(" ", 1)
+                    wds = [x for x in (wl[1].split(";") if len(wl) > 1 and wl[1] else [])]
+                    allp = pkgs_of(o)
+                    on_wire = wire[i].startswith("n=") and len(wds) == len(allp) == int(wl[0][2:])
+                    if on_wire:
+                        WIRE_CHECKED[0] += 1
+                        k = allp.index(p)
+                        l1, rest = wds[k].split(":", 1)
+                        c1, rest2 = rest.split("-", 1)
+                        l2, c2 = rest2.split(":")
+                        lines_b = b.split(b"\n")
+                        if l1 != l2 or int(l1) >= len(lines_b):
+                            why = f"diagnostic range on lines {l1}..{l2} of a document with {len(lines_b)} lines"
                         else:
-                            WIRE_SKIPPED[0] += 1
+                            lb = lines_b[int(l1)]
+                            u = lb.decode("utf-8").encode("utf-16-le")
+                            try:
+                                pre1 = u[: 2 * int(c1)].decode("utf-16-le"); pre2 = u[: 2 * int(c2)].decode("utf-16-le")
+                                if 2 * int(c2) > len(u) or int(c1) > int(c2):
+                                    raise ValueError
+                                ls_w = sum(len(x) + 1 for x in lines_b[: int(l1)])
+                                s, e = ls_w + len(pre1.encode("utf-8")), ls_w + len(pre2.encode("utf-8"))
+                            except (UnicodeDecodeError, ValueError):
+                                why = f"diagnostic range characters {c1}..{c2} do not denote a range of line {l1} (UTF-16 units)"
+                    else:
+                        WIRE_SKIPPED[0] += 1
+                    if not why:
+                        got = b[s:e].decode("utf-8", "replace")
+                        inside = [t0 for t0 in occ if t0 <= s and e <= t0 + len(tb)]
+                        where = "diagnostic range" if on_wire else "parser range"
+                        if not inside:
+                            why = f"{where} {s}..{e} = {got!r} is not inside the value token {token!r} (at {occ})"
+                        elif spec and spec in token and spec.replace(" ", "") not in got.replace(" ", ""):
+                            why = f"{where} {got!r} does not cover the spec {spec!r}"
+                        elif token == spec and got != spec:
+                            why = f"{where} {got!r} is not exactly the spec {spec!r}"
+                        elif on_wire and eco == "gha" and spec and got != spec:
+                            why = f"{where} {got!r} is not exactly the ref {spec!r}"
                 if why:
                     lay = {k: v for k, v in L.items() if v and k not in ("indent", "sp_colon")}
                     der.append({"req": vlib.line("ml.settle"), "index": i, "history": [cs[i]["req"]],
@@ -220,14 +229,26 @@ def streams(ctx):
             for k, p in enumerate(allp):
                 if structural(text, p):
                     broken = True
-                elif spec is not None and (b[p["start"]:p["end"]].decode("utf-8", "replace") != spec or p["start"] != b.rfind(spec.encode("utf-8"))):
-                    broken = True
+                elif spec is not None and len(wds) != len(allp) and (b[p["start"]:p["end"]].decode("utf-8", "replace") != spec or p["start"] != b.rfind(spec.encode("utf-8"))):
+                    broken = True          # (no diagnostic to judge: the parser's own range is judged)
                 elif len(wds) == len(allp):
-                    # the range on the wire is the UTF-16 position of the spec on its line
-                    ls = b.rfind(b"\n", 0, p["start"]) + 1
-                    c1 = int(wds[k].split(":", 1)[1].split("-")[0])
-                    if utf16_len(b[ls:p["start"]].decode("utf-8")) != c1:
+                    # the range on the wire (line, UTF-16 characters) reads the version text (the hash of a hash-pinned action)
+                    # whenever the parser's token contains it, else the token
+                    l1, rest = wds[k].split(":", 1)
+                    c1, rest2 = rest.split("-", 1)
+                    l2, c2 = rest2.split(":")
+                    tok = b[p["start"]:p["end"]].decode("utf-8", "replace")
+                    want = p["hash"] or p["version"]
+                    want = want if want in tok else tok
+                    lines_t = text.split("\n")
+                    u = (lines_t[int(l1)] if int(l1) < len(lines_t) else "").encode("utf-16-le")
+                    got_w = u[2 * int(c1): 2 * int(c2)].decode("utf-16-le", "replace")
+                    if l1 != l2 or got_w != want or (spec is not None and got_w != spec):
                         broken = True
+                    if spec is not None:      # ... and at the LAST occurrence of the spec in the document (the witnesses are built that way)
+                        ls_w = len("\n".join(lines_t[: int(l1)]).encode("utf-8")) + (1 if int(l1) > 0 else 0)
+                        if ls_w + len(u[: 2 * int(c1)].decode("utf-16-le", "replace").encode("utf-8")) != b.rfind(spec.encode("utf-8")):
+                            broken = True
             if broken:
                 der.append({"req": vlib.line("ml.settle"), "index": i, "history": [cs[i]["req"]], "check": (lambda out, kid=kid: ("known", kid))})
         return der
